@@ -287,6 +287,176 @@ fn gen_merged(rng: &mut Rng, max_len: u64) -> Case {
     Case { kind: "dup", w, d, tick_us, base_us: BASE_US, table, msgs }
 }
 
+// ------------------------------------------------------------------------------------------------ bursts
+/// one linear family of messages: message j has k = j / q, rx = rx0 + k*rxs, ts = ts0 + k*tss (ticks of 100 us = 1 dms),
+/// index = uid = idx0 + j
+#[derive(Clone)]
+struct Seg {
+    n: u64,
+    q: u64,
+    rx0: i64,
+    rxs: i64,
+    ts0: i64,
+    tss: i64,
+    idx0: u64,
+}
+const BURST_TICK_US: u64 = 100;
+
+fn burst_msg(segs: &[Seg], uid: u64, real_lc: LifecycleId) -> Option<DltMessage> {
+    let g = segs.iter().find(|g| uid >= g.idx0 && uid < g.idx0 + g.n)?;
+    let k = ((uid - g.idx0) / g.q) as i64;
+    let mut m = mk_msg(uid as u32, "ECUA", (BASE_US as i64 + (g.rx0 + k * g.rxs) * BURST_TICK_US as i64) as u64, (g.ts0 + k * g.tss) as u32, (uid as u32).to_le_bytes().to_vec());
+    m.lifecycle = real_lc;
+    Some(m)
+}
+fn burst_hash(m: &DltMessage) -> u32 {
+    let mut b = Vec::with_capacity(32);
+    b.extend_from_slice(&m.index.to_le_bytes());
+    b.extend_from_slice(&m.reception_time_us.to_le_bytes());
+    b.extend_from_slice(&m.timestamp_dms.to_le_bytes());
+    b.extend_from_slice(&m.lifecycle.to_le_bytes());
+    b.extend_from_slice(&m.payload);
+    hash31(&b)
+}
+
+/// the segments of a burst of n messages, all inside the buffering window (D = 2 s, window still young), within the bound,
+/// arriving out of calculated-time order: block A (delay 0.1 ms), block B one second "older", then 16 late ones with
+/// descending calculated times 1.9 s back; groups of q messages share reception time and timestamp (ties by index)
+fn burst_segs(n: u64, q: u64) -> (Vec<Seg>, i64) {
+    let start: i64 = 100_000; // lifecycle start (ticks relative to base)
+    let late = 16.min(n / 4).max(1);
+    let na = (n - late) / 2;
+    let nb = n - late - na;
+    let rx_a = start + 300_000;
+    let ka = ((na.max(1) - 1) / q) as i64;
+    let rx_b = rx_a + ka + 1;
+    let kb = ((nb.max(1) - 1) / q) as i64;
+    let rx_c = rx_b + kb + 1;
+    let mut segs = Vec::new();
+    let mut idx0 = 0;
+    for (cnt, qq, rx0, rxs, delay0, dstep) in [(na, q, rx_a, 1i64, 1i64, 0i64), (nb, q, rx_b, 1, 10_000, 0), (late, 1, rx_c, 0, 19_000, 3)] {
+        if cnt == 0 {
+            continue;
+        }
+        // ts = rx - delay - start; the delay grows by dstep per group
+        segs.push(Seg { n: cnt, q: qq, rx0, rxs, ts0: rx0 - delay0 - start, tss: rxs - dstep, idx0 });
+        idx0 += cnt;
+    }
+    (segs, start)
+}
+
+struct BurstSummary {
+    count: u64,
+    hash: u32,
+    not_intact: u64,
+    first_inv: i64,
+    inv_uids: (i64, i64),
+}
+
+/// run the real sorter on a burst, streaming (nothing but the sorter's own buffer holds the messages)
+fn run_burst(segs: &[Seg], start: i64, w: u8, d_ticks: i64) -> (u32, BurstSummary, Outcome) {
+    let (lcs_r, mut lcs_w) = evmap::new::<LifecycleId, LifecycleItem>();
+    let start_us = (BASE_US as i64 + start * BURST_TICK_US as i64) as u64;
+    let mut dummy = mk_msg(0, "LCLC", start_us, 0, vec![]);
+    let mut lc = Lifecycle::new(&mut dummy);
+    lc.start_time = start_us;
+    let real_lc = lc.id();
+    lcs_w.insert(real_lc, lc);
+    lcs_w.refresh();
+    let total: u64 = segs.iter().map(|g| g.n).sum();
+    let (tx, rx) = std::sync::mpsc::sync_channel::<DltMessage>(4096);
+    let segs_p = segs.to_vec();
+    let producer = std::thread::spawn(move || {
+        let mut h: u32 = 0;
+        for uid in 0..total {
+            let m = burst_msg(&segs_p, uid, real_lc).unwrap();
+            h = (h + burst_hash(&m)) & 0x7fff_ffff;
+            if tx.send(m).is_err() {
+                break;
+            }
+        }
+        h
+    });
+    let sum = RefCell::new(BurstSummary { count: 0, hash: 0, not_intact: 0, first_inv: -1, inv_uids: (-1, -1) });
+    let last: RefCell<Option<((i64, u32), i64)>> = RefCell::new(None);
+    let res = catch(std::panic::AssertUnwindSafe(|| {
+        adlt::utils::buffer_sort_messages(
+            rx,
+            &|m| {
+                let mut s = sum.borrow_mut();
+                let uid = if m.payload.len() >= 4 { u32::from_le_bytes(m.payload[0..4].try_into().unwrap()) as i64 } else { -1 };
+                s.hash = (s.hash + burst_hash(&m)) & 0x7fff_ffff;
+                let orig = if uid >= 0 { burst_msg(segs, uid as u64, real_lc) } else { None };
+                match &orig {
+                    Some(o) if *o == m => {
+                        // the message's key: calculated time of its family (lifecycle start + timestamp, never capped here) and index
+                        let key = (start + o.timestamp_dms as i64, m.index);
+                        let mut l = last.borrow_mut();
+                        if let Some((lk, luid)) = *l {
+                            if key < lk && s.first_inv < 0 {
+                                s.first_inv = s.count as i64;
+                                s.inv_uids = (luid, uid);
+                            }
+                        }
+                        *l = Some((key, uid));
+                    }
+                    _ => s.not_intact += 1,
+                }
+                s.count += 1;
+                Ok(())
+            },
+            &lcs_r,
+            w,
+            d_ticks as u64 * BURST_TICK_US,
+        )
+    }));
+    let hash_in = producer.join().unwrap_or(0);
+    drop(lcs_w);
+    (
+        hash_in,
+        sum.into_inner(),
+        match res {
+            Ok(Ok(())) => Outcome::End,
+            Ok(Err(_)) => Outcome::Err,
+            Err(p) => Outcome::Panic(p),
+        },
+    )
+}
+
+fn segs_json(segs: &[Seg]) -> Vec<Value> {
+    segs.iter().map(|g| json!({"n":g.n,"q":g.q,"rx0":g.rx0,"rxs":g.rxs,"ts0":g.ts0,"tss":g.tss,"lc":1,"idx0":g.idx0})).collect()
+}
+
+/// a burst as summary case; small ones additionally as a full trace (the same messages as an ordinary case), which ties the
+/// driver's summary scan to TLC's own judgement of the complete output
+fn do_burst(t: &mut Trace, case: &mut u64, n: u64, q: u64, twin: bool) {
+    let (segs, start) = burst_segs(n, q);
+    let (w, d) = (3u8, 20_000i64);
+    let (hash_in, s, oc) = run_burst(&segs, start, w, d);
+    t.ev(json!({"ev":"reset","case":*case,"hdr":{"kind":"burst","W":w,"D":d,"base":0,"tick_us":BURST_TICK_US,"table":[{"id":1,"start":start}],
+        "msgs":[],"segs":segs_json(&segs),"hash_in":hash_in,"n":n,"info":{}}}));
+    t.ev(json!({"ev":"burst_out","count":s.count,"hash":s.hash,"not_intact":s.not_intact,"first_inv":s.first_inv,"inv_uid_before":s.inv_uids.0,"inv_uid":s.inv_uids.1}));
+    match &oc {
+        Outcome::End => t.ev(json!({"ev":"end"})),
+        Outcome::Err => t.ev(json!({"ev":"err"})),
+        Outcome::Panic(p) => t.ev(json!({"ev":"panic","msg":p})),
+    }
+    *case += 1;
+    if twin {
+        let mut msgs = Vec::new();
+        for g in &segs {
+            for j in 0..g.n {
+                let k = (j / g.q) as i64;
+                msgs.push(Msg { index: (g.idx0 + j) as u32, ecu: "ECUA".into(), lc: 1, rx: g.rx0 + k * g.rxs, ts: g.ts0 + k * g.tss, ctrl: false });
+            }
+        }
+        let c = Case { kind: "burst-twin", w, d, tick_us: BURST_TICK_US, base_us: BASE_US, table: vec![(1, start)], msgs };
+        let (obs, oc) = exec_case(&c);
+        write_case(t, *case, &c, &obs, &oc, json!({"twin_of": *case - 1}));
+        *case += 1;
+    }
+}
+
 /// clean boots on a few ECUs, table produced by the real lifecycle detector run to completion before sorting
 fn gen_det(rng: &mut Rng, max_len: u64) -> Option<(Case, Vec<DltMessage>, evmap::ReadHandle<LifecycleId, LifecycleItem>, evmap::WriteHandle<LifecycleId, LifecycleItem>)> {
     let tick_us: u64 = 1_000_000;
@@ -450,6 +620,20 @@ fn main() {
         write_case(&mut t, case, &c, &obs, &oc, json!({}));
         case += 1;
     }
+    // bursts: more messages inside the buffering window than the sorter preallocates (2^20); `--burst 1`: one such case,
+    // `--burst 4`: all sizes; small bursts (with full-trace twins) always
+    let n_burst = a.num("--burst", 0);
+    let mut burst_sizes: Vec<u64> = Vec::new();
+    if n_burst > 0 {
+        for (n, q) in [(40u64, 4u64), (257, 16), (1000, 1), (3000, 64)] {
+            do_burst(&mut t, &mut case, n, q, true);
+        }
+        let big: &[u64] = if n_burst >= 4 { &[(1 << 20) - 1, 1 << 20, (1 << 20) + 16, (1 << 20) + (1 << 20) / 5] } else { &[(1 << 20) + 16] };
+        for n in big {
+            do_burst(&mut t, &mut case, *n, 1024, false);
+            burst_sizes.push(*n);
+        }
+    }
     let (mut det_done, mut det_skipped) = (0u64, 0u64);
     for _ in 0..n_det {
         match gen_det(&mut rng, max_len) {
@@ -466,7 +650,7 @@ fn main() {
     t.flush();
     println!(
         "{}",
-        json!({"cases": case, "lines": t.lines, "replayed": replayed, "fast_path": fast, "slow_path": slow, "drift": drift, "drift_dup_index": drift_dup, "dup": n_dup,
+        json!({"cases": case, "lines": t.lines, "replayed": replayed, "fast_path": fast, "slow_path": slow, "drift": drift, "drift_dup_index": drift_dup, "dup": n_dup, "burst_sizes": burst_sizes,
                "sampled": sampled, "random": n_random, "det": det_done, "det_skipped": det_skipped})
     );
 }
